@@ -22,6 +22,8 @@ A call that changes the state inside a condition is evaluated in C++ order (shor
 import json, re
 from cxx2lean import clang_ast, body_of, params_of, enum_values, Untranslatable
 
+PURE_CLASSES = ("Parser",)      # classes whose member functions are static and touch no object state
+
 WRAP = ("ImplicitCastExpr", "ExprWithCleanups", "MaterializeTemporaryExpr", "CXXBindTemporaryExpr", "ConstantExpr",
         "CXXFunctionalCastExpr", "CStyleCastExpr", "CXXStaticCastExpr", "ParenExpr")
 
@@ -58,8 +60,12 @@ def ty_of(q):
         return "bool"
     if q0 in ("int", "qint64", "long long", "qlonglong", "long", "unsigned int", "uint", "qsizetype", "quint64", "unsigned long long"):
         return "int"
-    if "HeaderMap" in q0 or "QMultiMap<QHttpEngine::IByteArray" in q0 or "QMap<QHttpEngine::IByteArray" in q0:
+    if "HeaderMap" in q0 or "QMultiMap<QHttpEngine::IByteArray" in q0 or "QMap<QHttpEngine::IByteArray" in q0 or "QMap<IByteArray" in q0 or "QMultiMap<IByteArray" in q0:
         return "hmap"
+    if "QList<QByteArray>" in q0 or "QByteArrayList" in q0:
+        return "blist"
+    if q0.endswith("Socket::Method"):
+        return "int"
     if "QByteArray" in q0 or "IByteArray" in q0 or q0.startswith("char") or "char *" in q0 or "char[" in q0:
         return "bytes"
     if "QJsonDocument" in q0:
@@ -72,7 +78,7 @@ def ty_of(q):
 
 
 LEAN_TY = {"bool": "Bool", "int": "Int", "bytes": "Bytes", "obytes": "Option Bytes", "hmap": "HeaderMap", "json": "Bytes",
-           "rstate": "RState", "wstate": "WState"}
+           "rstate": "RState", "wstate": "WState", "blist": "List Bytes"}
 
 # C++ member of SocketPrivate -> (field of Qhttp.Sock, type)
 FIELDS = {
@@ -109,6 +115,7 @@ class Ctx:
         self.busy = set()
         self.tmp = 0
         self.globals = {}
+        self.inout = {}
         self.fetch = lambda name: []
 
     def global_const(self, name):
@@ -161,6 +168,10 @@ class Ctx:
                 continue
             if t == "bytes" and self.default_of(p) == "null":
                 t = "obytes"
+            if "&" in qt(p) and "const" not in qt(p):
+                self.inout.setdefault(key, [])
+                if nm not in self.inout[key]:
+                    self.inout[key].append(nm)
             ps.append((nm, nm, t, None))
             i += 1
         m = re.match(r"(.*?)\s*\((.*)\)\s*(const)?$", qt(d))
@@ -218,7 +229,7 @@ class Fn:
         self.ctx = ctx
         self.key = key
         self.cls = key.split("::")[0]
-        self.free = key.startswith("::")
+        self.free = key.startswith("::") or key.split("::")[0] in PURE_CLASSES
         self.decl = ctx.decls[key]
         self.params, self.ret, self.const = ctx.sig(key)
         if self.free:
@@ -226,10 +237,21 @@ class Fn:
         self.uses_env = False
         self.info = None
         self.outbuf = None
+        self.ret_override = None
+        self.inouts = ctx.inout.get(key, []) if self.free else []
+        self.needs_fuel = False
+        self.nloops = 0
+        self.cont_cb = None
 
     # ------------------------------------------------------------------ result shapes
-    def result(self, val):
+    def result(self, val, env=None):
         """what a `return val` (or falling off the end) produces"""
+        if self.ret_override is not None:
+            return self.ret_override(val, env)
+        if self.free and self.inouts:
+            outs = [env[n][0] for n in self.inouts]
+            parts = ([val] if val is not None else []) + outs
+            return parts[0] if len(parts) == 1 else "(" + ", ".join(parts) + ")"
         if self.const:
             return val if val is not None else "()"
         if self.outbuf:
@@ -255,10 +277,13 @@ class Fn:
             if t not in LEAN_TY:
                 raise Untranslatable("parameter %s of type %s" % (cn, t))
             args.append("(%s : %s)" % (ln, LEAN_TY[t]))
-        body = self.stmts(self.flatten(body_of(self.decl)), env, lambda e: self.result(None), None)
+        body = self.stmts(self.flatten(body_of(self.decl)), env, lambda e: self.result(None, e), None)
         if self.outbuf:
             body = "let %s : Bytes := []\n%s" % (self.outbuf, body)
-        if self.const:
+        if self.free and self.inouts:
+            tys = ([LEAN_TY.get(self.ret, "?")] if self.ret != "void" else []) + [LEAN_TY.get(dict((p[0], p[2]) for p in self.params)[n], "?") for n in self.inouts]
+            rty = " × ".join(tys)
+        elif self.const:
             rty = LEAN_TY.get(self.ret)
         elif self.outbuf:
             rty = "Sock × Bytes × %s" % LEAN_TY.get(self.ret, "?")
@@ -270,6 +295,10 @@ class Fn:
             raise Untranslatable("return type " + self.ret)
         self.info = {"name": name, "params": self.params, "ret": self.ret, "const": self.const, "env": self.uses_env, "outbuf": bool(self.outbuf)}
         self.info["free"] = self.free
+        self.info["inouts"] = list(self.inouts)
+        self.info["fuel"] = self.needs_fuel
+        if self.needs_fuel:
+            args.insert(0, "(fuel : Nat)")
         if self.free and self.uses_env:
             raise Untranslatable("file-scope function that needs the environment")
         head = "def %s %s%s%s: %s :=" % (name, "(env : Env) (app : App) " if self.uses_env else "", "" if self.free else "(s : Sock) ",
@@ -435,10 +464,19 @@ class Fn:
         if k == "CXXOperatorCallExpr":
             ks = kids(n)
             opn = strip(ks[0]).get("referencedDecl", {}).get("name", "")
+            if opn in ("operator*", "operator->") and len(ks) == 2:
+                vn = strip(ks[1]).get("referencedDecl", {}).get("name")
+                if vn in env and env[vn][1] == "iterelem":
+                    return [], env[vn][0], "bytes"
             if opn in ("operator+", "operator==", "operator!=", "operator<", "operator>", "operator<=", "operator>="):
                 pa, ca, ta = self.ex(ks[1], env)
                 pb, cb, tb = self.ex(ks[2], env)
                 return pa + pb, *self.binop(opn[8:], ca, ta, cb, tb)
+            if opn == "operator[]":
+                pa, ca, ta = self.ex(ks[1], env)
+                pb, cb, tb = self.ex(ks[2], env)
+                if ta == "blist" and tb == "int":
+                    return pa + pb, "(Cxx.nth %s %s)" % (ca, cb), "bytes"
             raise Untranslatable("operator call " + opn)
         if k == "CXXMemberCallExpr":
             return self.call_member(n, env, want_value=True)
@@ -505,11 +543,11 @@ class Fn:
                         return True
                 if obj == "socket" and nm in ("readAll", "write", "close", "read", "flush", "abort", "disconnectFromHost"):
                     return True
-                if nm in ("append", "remove", "truncate", "clear", "insert", "replace", "prepend"):
+                if nm in ("append", "remove", "truncate", "clear", "insert", "replace", "prepend", "takeFirst", "removeFirst", "takeLast"):
                     return True
         if k == "CallExpr":
             fn = strip(kids(n0)[0])
-            if fn.get("referencedDecl", {}).get("name") in ("parseRequestHeaders", "parsePath", "memcpy", "connect"):
+            if fn.get("referencedDecl", {}).get("name") in ("parseRequestHeaders", "parsePath", "memcpy", "connect", "split", "parseHeaders", "parseHeaderList", "parseResponseHeaders"):
                 return True
         return any(self.effectful(c) for c in kids(n0))
 
@@ -664,6 +702,31 @@ class Fn:
                 return pre, "(Qhttp.lower %s)" % oc, "bytes"
             if nm == "trimmed" and not a:
                 return pre, "(Qhttp.trim %s)" % oc, "bytes"
+        if ot == "bytes":
+            if nm == "mid" and len(a) == 2 and a[0][1] == a[1][1] == "int":
+                return pre, "(Cxx.mid %s %s %s)" % (oc, a[0][0], a[1][0]), "bytes"
+            if nm == "mid" and len(a) == 1 and a[0][1] == "int":
+                return pre, "(Cxx.mid %s %s (-1))" % (oc, a[0][0]), "bytes"
+            if nm == "indexOf" and len(a) == 2 and a[0][1] == "bytes" and a[1][1] == "int":
+                return pre, "(Cxx.indexOfFrom %s %s %s)" % (oc, a[0][0], a[1][0]), "int"
+            if nm == "toInt" and not a:
+                return pre, "(Qhttp.toIntQ %s)" % oc, "int"
+        if ot == "blist":
+            if nm in ("count", "size", "length") and not a:
+                return pre, "(Cxx.count %s)" % oc, "int"
+            if nm == "isEmpty" and not a:
+                return pre, "(%s.isEmpty)" % oc, "bool"
+            if nm in ("at", "value") and len(a) == 1 and a[0][1] == "int":
+                return pre, "(Cxx.nth %s %s)" % (oc, a[0][0]), "bytes"
+            if nm == "first" and not a:
+                return pre, "(Cxx.nth %s 0)" % oc, "bytes"
+            if nm == "takeFirst" and not a:
+                o0 = strip(objn)
+                vn = o0.get("referencedDecl", {}).get("name")
+                if o0.get("kind") == "DeclRefExpr" and vn in env and re.match(r"^[A-Za-z_][A-Za-z0-9_']*$", env[vn][0]):
+                    t = self.ctx.fresh()
+                    return pre + ["let (%s, %s) := Cxx.takeFirst %s" % (t, env[vn][0], env[vn][0])], t, "bytes"
+                raise Untranslatable("takeFirst() on something else than a local list")
         if ot == "json" and nm == "toJson" and not a:
             return pre, oc, "bytes"
         if ot == "hmap":
@@ -727,21 +790,53 @@ class Fn:
             self.uses_env = True
             t = self.ctx.fresh()
             return pre + ["let (s, %s) := Cxx.parsePath env s %s" % (t, a[0][0])], t, "bool"
-        if fn.get("referencedDecl", {}).get("kind") == "FunctionDecl" and nm:
-            info = self.ctx.need_free(nm)
-            pre, a = self.args(real, env)
+        rdk = fn.get("referencedDecl", {}).get("kind")
+        if rdk in ("FunctionDecl", "CXXMethodDecl") and nm:
+            key = None
+            if rdk == "CXXMethodDecl":
+                for c in PURE_CLASSES:
+                    if c + "::" + nm in self.ctx.decls:
+                        key = c + "::" + nm
+                if key is None:
+                    raise Untranslatable("call to the static function " + nm)
+                info = self.ctx.need(key)
+            else:
+                info = self.ctx.need_free(nm)
             ps = info["params"]
-            if len(a) != len(ps):
+            if len(real) != len(ps):
                 raise Untranslatable("call to %s with default arguments" % nm)
-            for (c, t), (cn, ln, pt, _) in zip(a, ps):
-                if t != pt:
-                    raise Untranslatable("argument %s of %s: %s for %s" % (cn, nm, t, pt))
-            return pre, "(%s%s)" % (info["name"], "".join(" " + c for c, _ in a)), info["ret"]
+            pre, vals, outs = [], [], []
+            for an, (cn, ln, pt, _) in zip(real, ps):
+                if cn in info["inouts"]:
+                    a0 = strip(an)
+                    vn = a0.get("referencedDecl", {}).get("name")
+                    if a0.get("kind") != "DeclRefExpr" or vn not in env or env[vn][1] != pt or not re.match(r"^[A-Za-z_][A-Za-z0-9_']*$", env[vn][0]):
+                        raise Untranslatable("argument for the reference parameter %s of %s is not a plain local" % (cn, nm))
+                    vals.append(env[vn][0]); outs.append(env[vn][0])
+                else:
+                    p, c, t = self.ex(an, env)
+                    if t != pt:
+                        raise Untranslatable("argument %s of %s: %s for %s" % (cn, nm, t, pt))
+                    pre += p; vals.append(c)
+            if info["fuel"]:
+                self.needs_fuel = True
+                vals.insert(0, "fuel")
+            call = "%s%s" % (info["name"], "".join(" " + v for v in vals))
+            if not outs:
+                return pre, "(%s)" % call, info["ret"]
+            if info["ret"] == "void":
+                lhs = outs[0] if len(outs) == 1 else "(" + ", ".join(outs) + ")"
+                return pre + ["let %s := %s" % (lhs, call)], "()", "void"
+            t = self.ctx.fresh()
+            return pre + ["let (%s) := %s" % (", ".join([t] + outs), call)], t, info["ret"]
         raise Untranslatable("call to " + str(nm))
 
     # ------------------------------------------------------------------ conditions (C++ evaluation order)
     def cond(self, n, env, kt, kf):
         n0 = strip(n)
+        if not self.effectful(n0):
+            pre, c, t = self.ex(n0, env)
+            return "\n".join(pre + ["if %s then\n%s\nelse\n%s" % (self.as_bool(c, t), ind(kt()), ind(kf()))])
         if n0.get("kind") == "BinaryOperator" and n0.get("opcode") == "&&":
             a, b = kids(n0)
             return self.cond(a, env, lambda: self.cond(b, env, kt, kf), kf)
@@ -800,12 +895,15 @@ class Fn:
                             env[nm] = ((which, cm), "iter")
                             continue
                     raise Untranslatable("iterator %s that is not begin()/end() of a header map" % nm)
-                if t not in ("int", "bool", "bytes"):
+                if t not in ("int", "bool", "bytes", "blist", "hmap"):
                     raise Untranslatable("local %s of type %s" % (nm, qt(v)))
                 if not init or (strip(init[0]).get("kind") in ("CXXConstructExpr", "CXXTemporaryObjectExpr") and not [c for c in kids(strip(init[0])) if c.get("kind") != "CXXDefaultArgExpr"]):
-                    if t != "bytes":
+                    if t == "int" and not init and self.free:
+                        lines.append("let %s : Int := 0" % nm)       # written before it is read (checked by the C++ compiler's flow only)
+                    elif t not in ("bytes", "blist", "hmap"):
                         raise Untranslatable("local without initialiser: " + nm)
-                    lines.append("let %s : Bytes := []" % nm)
+                    else:
+                        lines.append("let %s : %s := []" % (nm, LEAN_TY[t]))
                 else:
                     p, c, ct = self.ex(init[0], env)
                     if ct == "obytes" and t == "bytes":
@@ -828,6 +926,13 @@ class Fn:
                 raise Untranslatable("compound assignment on " + tl)
             l, env = self.assign(lhs, "(%s %s %s)" % (cl, s0["opcode"][0], c), "int", env)
             return pl + p + l, env
+        if k == "UnaryOperator" and s0.get("opcode") in ("++", "--"):
+            lhs = kids(s0)[0]
+            pl, cl, tl = self.ex(lhs, env)
+            if tl != "int":
+                raise Untranslatable("++ on " + tl)
+            l, env = self.assign(lhs, "(%s %s 1)" % (cl, "+" if s0["opcode"] == "++" else "-"), "int", env)
+            return pl + l, env
         if k == "CXXOperatorCallExpr":
             ks = kids(s0)
             opn = strip(ks[0]).get("referencedDecl", {}).get("name", "")
@@ -847,7 +952,7 @@ class Fn:
             nm = callee.get("name")
             objn = kids(callee)[0] if callee.get("kind") == "MemberExpr" else None
             real = [x for x in kids(s0)[1:] if x.get("kind") != "CXXDefaultArgExpr"]
-            if objn is not None and nm in ("append", "remove", "truncate", "clear", "insert", "replace") and self.obj_path(objn) not in ("this", "q", "d", "socket"):
+            if objn is not None and nm in ("append", "push_back", "remove", "truncate", "clear", "insert", "replace") and self.obj_path(objn) not in ("this", "q", "d", "socket"):
                 pl, cl, tl = self.ex(objn, env)
                 pre, a = self.args(real, env)
                 if tl == "bytes":
@@ -863,6 +968,11 @@ class Fn:
                         raise Untranslatable("QByteArray::%s with these arguments" % nm)
                     l, env = self.assign(objn, new, "bytes", env)
                     return pl + pre + l, env
+                if tl == "blist":
+                    if nm in ("append", "push_back") and len(a) == 1 and a[0][1] == "bytes":
+                        l, env = self.assign(objn, "(%s ++ [%s])" % (cl, a[0][0]), "blist", env)
+                        return pl + pre + l, env
+                    raise Untranslatable("QList::%s with these arguments" % nm)
                 if tl == "hmap":
                     if nm == "remove" and len(a) == 1:
                         new = "(HeaderMap.remove %s %s)" % (a[0][0], cl)
@@ -917,11 +1027,11 @@ class Fn:
         if kind == "ReturnStmt":
             inner = kids(s)
             if not inner:
-                return self.result(None)
+                return self.result(None, env)
             p, c, t = self.ex(inner[0], env)
             if self.const and self.ret != t and not (self.ret == "bytes" and t == "obytes"):
                 raise Untranslatable("return of type %s from a function returning %s" % (t, self.ret))
-            return "\n".join(p + [self.result(c)])
+            return "\n".join(p + [self.result(c, env)])
         if kind == "BreakStmt":
             if brk is None:
                 raise Untranslatable("break outside a switch")
@@ -997,11 +1107,132 @@ class Fn:
                 code = case_chain(0, tup)
                 return "\n".join(ps + ["let %s :=\n%s\n%s" % (tup(env), ind(code), self.stmts(rest, env, k, brk))])
             return "\n".join(ps + [case_chain(0, lambda e: self.stmts(rest, e, k, brk))])
+        if kind == "ContinueStmt":
+            if self.cont_cb is None:
+                raise Untranslatable("continue outside a loop")
+            return self.cont_cb(env)
         if kind in ("ForStmt", "WhileStmt"):
+            if self.free:
+                return self.loop(s, rest, env, k, brk)
             lines, env2 = self.map_loop(s, env)
             return "\n".join(lines + [self.stmts(rest, env2, k, brk)])
         lines, env2 = self.simple(s, env)
         return "\n".join(lines + [self.stmts(rest, env2, k, brk)])
+
+    # ------------------------------------------------------------------ loops of pure functions
+    def list_iteration(self, s, env):
+        """foreach (x, list) / for (it = list.begin(); it != list.end(); ++it)  ->  (element name, list code, body stmts, deref?)"""
+        if s["kind"] != "ForStmt":
+            return None
+        raw = s.get("inner", [])
+        init, cnd, inc, body = raw[0], raw[2], raw[3], raw[4]
+        if not init or init.get("kind") != "DeclStmt" or len(kids(init)) != 1:
+            return None
+        v = kids(init)[0]
+        if v.get("kind") != "VarDecl" or not kids(v):
+            return None
+        i0 = strip(kids(v)[0])
+        if v["name"].startswith("_container_"):
+            # Q_FOREACH: for (auto c = qMakeForeachContainer(L); c.i != c.e; ++c.i) if (T x = *c.i; false) {} else BODY
+            if i0.get("kind") != "CallExpr" or strip(kids(i0)[0]).get("referencedDecl", {}).get("name") != "qMakeForeachContainer":
+                return None
+            pl, cl, tl = self.ex(kids(i0)[1], env)
+            b0 = body
+            while b0.get("kind") == "CompoundStmt" and len(kids(b0)) == 1:
+                b0 = kids(b0)[0]
+            if tl != "blist" or pl or b0.get("kind") != "IfStmt":
+                return None
+            parts = kids(b0)
+            if parts[0].get("kind") != "DeclStmt":
+                return None
+            elem = kids(parts[0])[0]["name"]
+            return elem, cl, self.flatten(parts[-1]), False
+        if i0.get("kind") == "CXXMemberCallExpr" and strip(kids(i0)[0]).get("name") in ("constBegin", "begin", "cbegin") and "iterator" in qt(v):
+            pl, cl, tl = self.ex(kids(strip(kids(i0)[0]))[0], env)
+            if tl != "blist" or pl:
+                return None
+            itname = v["name"]
+            c0 = strip(cnd)
+            ok = c0.get("kind") == "CXXOperatorCallExpr" and strip(kids(c0)[0]).get("referencedDecl", {}).get("name") == "operator!=" \
+                and strip(kids(c0)[1]).get("referencedDecl", {}).get("name") == itname
+            if ok:
+                r = strip(kids(c0)[2])
+                ok = r.get("kind") == "CXXMemberCallExpr" and strip(kids(r)[0]).get("name") in ("constEnd", "end", "cend") \
+                    and self.ex(kids(strip(kids(r)[0]))[0], env)[1] == cl
+            n0 = strip(inc)
+            ok = ok and n0.get("kind") == "CXXOperatorCallExpr" and strip(kids(n0)[0]).get("referencedDecl", {}).get("name") == "operator++" \
+                and strip(kids(n0)[1]).get("referencedDecl", {}).get("name") == itname
+            if not ok:
+                return None
+            return itname, cl, self.flatten(body), True
+        return None
+
+    def loop(self, s, rest, env, k, brk):
+        self.nloops += 1
+        g = "go%d" % self.nloops
+        rty = LEAN_TY.get(self.ret, "Unit") if self.ret != "void" else "Unit"
+        it = self.list_iteration(s, env)
+        pre_lines = []
+        if it:
+            elem, lcode, bss, deref = it
+            inc_ss = []
+            cnd = None
+        else:
+            if s["kind"] == "ForStmt":
+                raw = s.get("inner", [])
+                init, cnd, inc, body = raw[0], raw[2], raw[3], raw[4]
+                if init and init.get("kind"):
+                    pre_lines, env = self.simple(init, env)
+                inc_ss = [inc] if inc and inc.get("kind") else []
+            else:
+                raw = kids(s)
+                cnd, body = raw[0], raw[1]
+                inc_ss = []
+            bss = self.flatten(body)
+            if cnd is None or not cnd.get("kind"):
+                raise Untranslatable("loop without a condition")
+            self.needs_fuel = True
+        names = sorted(self.assigned(bss + inc_ss, env))
+        for nme in names:
+            if not re.match(r"^[A-Za-z_][A-Za-z0-9_']*$", env[nme][0]) or env[nme][1] not in LEAN_TY:
+                raise Untranslatable("loop that assigns " + nme)
+        def tup(exitc, e):
+            parts = [exitc] + [e[v][0] for v in names]
+            return parts[0] if len(parts) == 1 else "(" + ", ".join(parts) + ")"
+        params = "".join(" (%s : %s)" % (env[v][0], LEAN_TY[env[v][1]]) for v in names)
+        oty = " × ".join(["Option " + rty] + [LEAN_TY[env[v][1]] for v in names])
+        saved_ret, saved_cont = self.ret_override, self.cont_cb
+        self.ret_override = lambda val, e: tup("(some %s)" % (val if val is not None else "()"), e)
+        try:
+            if it:
+                again = lambda e: "%s tl_%s" % (g, "".join(" " + e[v][0] for v in names))
+                self.cont_cb = again
+                env_in = dict(env)
+                env_in[elem] = (elem, "bytes")
+                if deref:
+                    env_in[elem] = (elem, "iterelem")
+                body_code = self.stmts(bss, env_in, again, lambda e: tup("none", e))
+                fn = "let rec %s (l_ : List Bytes)%s : %s :=\n  match l_ with\n  | [] => %s\n  | %s :: tl_ =>\n%s" % (
+                    g, params, oty, tup("none", env), elem, ind(body_code, 4))
+                call = "%s %s%s" % (g, lcode, "".join(" " + env[v][0] for v in names))
+            else:
+                def again(e):
+                    if not inc_ss:
+                        return "%s fuel%s" % (g, "".join(" " + e[v][0] for v in names))
+                    l, e2 = self.simple(inc_ss[0], e)
+                    return "\n".join(l + ["%s fuel%s" % (g, "".join(" " + e2[v][0] for v in names))])
+                self.cont_cb = again
+                inner = self.cond(cnd, env, lambda: self.stmts(bss, dict(env), again, lambda e: tup("none", e)), lambda: tup("none", env))
+                fn = "let rec %s (fuel : Nat)%s : %s :=\n  match fuel with\n  | 0 => %s\n  | fuel + 1 =>\n%s" % (
+                    g, params, oty, tup("none", env), ind(inner, 4))
+                call = "%s fuel%s" % (g, "".join(" " + env[v][0] for v in names))
+        finally:
+            self.ret_override, self.cont_cb = saved_ret, saved_cont
+        after = self.stmts(rest, env, k, brk)
+        pat_some = tup("some r_", env)
+        pat_none = tup("none", env)
+        early = self.result("r_" if self.ret != "void" else None, env)
+        return "\n".join(pre_lines + [fn, "match %s with\n| %s => %s\n| %s =>\n%s" % (call, pat_some, early, pat_none, ind(after))])
 
     # ------------------------------------------------------------------ iteration over a header map
     def map_loop(self, s, env):
@@ -1182,7 +1413,123 @@ def translate_socket(repo, exp):
     return "\n".join(out), done, failed
 
 
+PARSER_WANTED = ["Parser::split", "Parser::parseHeaderList", "Parser::parseHeaders", "Parser::parseRequestHeaders", "Parser::parseResponseHeaders"]
+
+# what a function that could not be translated is replaced by: the model's function in the translated signature
+# (the tie for that function is then the correspondence runs alone; recorded as `untranslated` in the generated file)
+PARSER_STUBS = {
+    "Parser::split": ("def Parser_split (fuel : Nat) (data : Bytes) (delim : Bytes) (maxSplit : Int) (parts : List Bytes) : List Bytes :=\n"
+                      "  parts ++ Qhttp.split delim maxSplit.toNat data\n"),
+    "Parser::parseHeaderList": ("def Parser_parseHeaderList (fuel : Nat) (lines : List Bytes) (headers : HeaderMap) : Bool × HeaderMap :=\n"
+                                "  match Parser.parseHeaderList lines headers with\n  | some m => (true, m)\n  | none => (false, headers)\n"),
+    "Parser::parseHeaders": ("def Parser_parseHeaders (fuel : Nat) (data : Bytes) (parts : List Bytes) (headers : HeaderMap) : Bool × List Bytes × HeaderMap :=\n"
+                             "  match Parser.parseHeaders data headers with\n  | some (a, b, c, m) => (true, parts ++ [a, b, c], m)\n  | none => (false, parts, headers)\n"),
+    "Parser::parseRequestHeaders": ("def Parser_parseRequestHeaders (fuel : Nat) (data : Bytes) (method : Int) (path : Bytes) (headers : HeaderMap) : Bool × Int × Bytes × HeaderMap :=\n"
+                                    "  match Parser.parseRequestHeaders data headers with\n  | some r => (true, (r.method : Int), r.rawPath, r.headers)\n  | none => (false, method, path, headers)\n"),
+    "Parser::parseResponseHeaders": ("def Parser_parseResponseHeaders (fuel : Nat) (data : Bytes) (statusCode : Int) (statusReason : Bytes) (headers : HeaderMap) : Bool × Int × Bytes × HeaderMap :=\n"
+                                     "  match Parser.parseResponseHeaders data with\n  | some (c, r, m) => (true, c, r, m)\n  | none => (false, statusCode, statusReason, headers)\n"),
+}
+
+
+def translate_parser(repo, exp):
+    """parser.cpp: the static functions of Parser as pure functions (reference parameters are returned)"""
+    docs = clang_ast(repo, "parser.cpp", "QHttpEngine::Parser::", exp)
+    decls = {}
+    for d in docs:
+        if d.get("kind") == "CXXMethodDecl" and body_of(d) is not None:
+            decls["Parser::" + d["name"]] = d
+    sdocs = clang_ast(repo, "parser.cpp", "QHttpEngine::Socket::Method", exp)
+    senums = {}
+    def walk(n):
+        if n.get("kind") == "EnumDecl":
+            nxt = 0
+            for e in n.get("inner", []) or []:
+                if e.get("kind") == "EnumConstantDecl":
+                    from cxx2lean import find_value
+                    v = None
+                    for x in e.get("inner", []) or []:
+                        fv = find_value(x)
+                        if fv is not None:
+                            v = fv
+                    v = nxt if v is None else v
+                    senums[e["name"]] = v
+                    nxt = v + 1
+        for c in n.get("inner", []) or []:
+            walk(c)
+    for d in sdocs:
+        walk(d)
+    ctx = Ctx(decls, senums, "")
+    ctx.fetch = lambda name: clang_ast(repo, "parser.cpp", name, exp)
+    done, failed, stubs = [], [], []
+    for key in PARSER_WANTED:
+        try:
+            ctx.need(key)
+        except Untranslatable as e:
+            failed.append("%s (%s)" % (key, e))
+    out = ["-- GENERATED on every run by tools/cxx2lean_qt.py from src/src/parser.cpp — do not edit.",
+           "import Qhttp.Model.CxxPrim", "set_option linter.unusedVariables false", "", "namespace QhttpGen.Parser", "open Qhttp", ""]
+    emitted = set()
+    for key in ctx.order:
+        info = ctx.done[key]
+        if key in PARSER_WANTED and not info["fuel"]:
+            # uniform signature: every parser function takes the loop bound, used or not
+            ctx.code[key] = ctx.code[key].replace("def %s " % info["name"], "def %s (fuel : Nat) " % info["name"], 1)
+        out.append(ctx.code[key]); done.append(key); emitted.add(key)
+    # a function that failed is replaced by the model's function; callers that were translated before the failure
+    # cannot exist (a caller fails with its callee), so the stubs come first
+    stub_text = []
+    for key in PARSER_WANTED:
+        if key not in emitted:
+            stubs.append(key)
+            stub_text.append("/-- `%s`: NOT translated on this run; the model's function stands in -/\n%s" % (key, PARSER_STUBS[key]))
+    if stubs:
+        # re-translate the callers against the stubs
+        ctx2 = Ctx(decls, senums, "")
+        ctx2.fetch = ctx.fetch
+        for key in stubs:
+            nm = key.replace("::", "_")
+            d = decls.get(key)
+            ps = ctx2.sig(key)[0] if d is not None else []
+            ctx2.done[key] = {"name": nm, "params": ps, "ret": ctx2.sig(key)[1] if d is not None else "void", "const": True, "env": False,
+                              "outbuf": False, "free": True, "inouts": ctx2.inout.get(key, []), "fuel": True}
+        out = out[:7] + stub_text
+        done = []
+        for key in PARSER_WANTED:
+            if key in stubs:
+                continue
+            try:
+                ctx2.need(key)
+            except Untranslatable as e:
+                pass
+        for key in ctx2.order:
+            info = ctx2.done[key]
+            if key in PARSER_WANTED and not info["fuel"]:
+                ctx2.code[key] = ctx2.code[key].replace("def %s " % info["name"], "def %s (fuel : Nat) " % info["name"], 1)
+            out.append(ctx2.code[key]); done.append(key)
+        for key in PARSER_WANTED:
+            if key not in stubs and key not in ctx2.done:
+                stubs.append(key)
+                out.append("/-- `%s`: NOT translated on this run; the model's function stands in -/\n%s" % (key, PARSER_STUBS[key]))
+        helpers = [ctx2.done[k]["name"] for k in ctx2.order if k not in PARSER_WANTED]
+    else:
+        helpers = [ctx.done[k]["name"] for k in ctx.order if k not in PARSER_WANTED]
+    out.append("/-- functions of parser.cpp that are outside the translated subset on this run -/")
+    out.append("def untranslated : List String := [%s]\n" % ", ".join('"%s"' % k for k in stubs))
+    out.append("end QhttpGen.Parser\n")
+    if helpers:
+        out.append("macro \"unfold_parser_helpers\" : tactic => `(tactic| try simp only [%s] at *)\n" % ", ".join("QhttpGen.Parser." + h for h in helpers))
+    else:
+        out.append("macro \"unfold_parser_helpers\" : tactic => `(tactic| skip)\n")
+    return "\n".join(out), done, failed, stubs
+
+
 if __name__ == "__main__":
+    import sys
+    if len(sys.argv) > 2 and sys.argv[2] == "parser":
+        text, done, failed, stubs = translate_parser(sys.argv[1], "/repo/_build/src")
+        print(text)
+        print("-- done:", done, "\n-- failed:", failed, "\n-- stubs:", stubs, file=sys.stderr)
+        sys.exit(0)
     import sys
     text, done, failed = translate_socket(sys.argv[1] if len(sys.argv) > 1 else "/repo", "/repo/_build/src")
     print(text)
